@@ -577,6 +577,31 @@ pub struct SkipWithDefaultExpr {
 }
 proj_struct!(SkipWithDefaultExpr { a, ss, z });
 
+/// `default` and `missing_field_error` on one field: the default wins, the function is never called
+#[derive(Deserr, Debug)]
+pub struct DefaultAndMissingFn {
+    #[deserr(default, missing_field_error = vf::missing_mf::<__Deserr_E>)]
+    first_one: u8,
+    #[deserr(missing_field_error = vf::missing_unexp::<__Deserr_E>, default = 9)]
+    second_one: u8,
+    #[deserr(missing_field_error = vf::missing_mf::<__Deserr_E>)]
+    third_one: u8,
+    fourth_one: bool,
+}
+proj_struct!(DefaultAndMissingFn { first_one, second_one, third_one, fourth_one });
+
+#[derive(Deserr, Debug)]
+#[deserr(tag = "t")]
+pub enum DefaultAndMissingFnEnum {
+    A {
+        #[deserr(default = 3, missing_field_error = vf::missing_mf::<__Deserr_E>)]
+        n: u8,
+        m: u8,
+    },
+    B,
+}
+proj_enum!(DefaultAndMissingFnEnum { A { n, m }, B });
+
 /// `map` on skipped fields: it runs once, on top of the default, like for every other field
 #[derive(Deserr, Debug)]
 pub struct SkipMapped {
@@ -1178,6 +1203,20 @@ pub fn defs() -> Defs {
         ],
     )));
     d.add(st(sdef(
+        "DefaultAndMissingFn",
+        vec![
+            f("first_one", u(8)).default(pu(0)).missing("missing_mf"),
+            f("second_one", u(8)).default(pu(9)).missing("missing_unexp"),
+            f("third_one", u(8)).missing("missing_mf"),
+            f("fourth_one", Ty::Bool),
+        ],
+    )));
+    d.add(Def::Enum(edef(
+        "DefaultAndMissingFnEnum",
+        "t",
+        vec![vd("A", "A", Some(vec![f("n", u(8)).default(pu(3)).missing("missing_mf"), f("m", u(8))])), vd("B", "B", None)],
+    )));
+    d.add(st(sdef(
         "SkipMapped",
         vec![f("hidden", u(8)).skip(pu(0)).map("inc_u8"), f("a", u(8)), f("hidden2", u(8)).skip(pu(41)).map("inc_u8"), f("b", Ty::Str).map("upper")],
     )));
@@ -1457,6 +1496,8 @@ pub fn registry() -> Registry {
     r.all::<ToolAttrsEnum>("ToolAttrsEnum", named("ToolAttrsEnum"), &["derive", "enum", "rename", "default", "foreign-attrs"]);
     r.all::<VariantRules>("VariantRules", named("VariantRules"), &["derive", "enum", "rename"]);
     r.all::<Defaults>("Defaults", named("Defaults"), &["derive", "default"]);
+    r.all::<DefaultAndMissingFn>("DefaultAndMissingFn", named("DefaultAndMissingFn"), &["derive", "default", "custom-fn"]);
+    r.all::<DefaultAndMissingFnEnum>("DefaultAndMissingFnEnum", named("DefaultAndMissingFnEnum"), &["derive", "enum", "default", "custom-fn"]);
     r.all::<SkipMapped>("SkipMapped", named("SkipMapped"), &["derive", "skip", "conv", "default"]);
     r.all::<SkipMappedEnum>("SkipMappedEnum", named("SkipMappedEnum"), &["derive", "enum", "skip", "conv", "default"]);
     r.all::<SkipFirst>("SkipFirst", named("SkipFirst"), &["derive", "skip"]);
